@@ -4,6 +4,7 @@ import (
 	"encoding/json"
 	"errors"
 	"fmt"
+	"math"
 	"math/rand"
 	"reflect"
 	"sync"
@@ -397,7 +398,9 @@ func c19Faults(c *core.Ctx, p c19Params) {
 		var req interface{} = map[string]int{"a": 1}
 		switch kind {
 		case "marshal":
-			req = []interface{}{make(chan int), func() {}, badMarshaler{}}[(i/3)%3]
+			// request values that cannot be marshalled, among them raw JSON that is not JSON
+			req = []interface{}{make(chan int), func() {}, badMarshaler{}, json.RawMessage(`{"a":`), json.RawMessage(`nope`), json.RawMessage(`{} x`), json.RawMessage(" \n"),
+				map[string]interface{}{"raw": json.RawMessage(`[1,`)}, math.NaN(), &badMarshaler{}}[(i/3)%10]
 		case "subscribe":
 			sc.subErr = c19ConnErrors[(i/3)%len(c19ConnErrors)]
 		case "publish":
@@ -457,6 +460,14 @@ func c19Nats(c *core.Ctx, p c19Params) {
 		r.OK(nil)
 	}), res.GetModel(func(r res.ModelRequest) { r.Model(map[string]int{"a": 1}) }))
 	// a resource of its own (own worker group, never queued behind the slow handlers)
+	// many pre-responses before the reply (a long-running handler that keeps extending)
+	svc.Handle("patient", res.Call("do", func(r res.CallRequest) {
+		for k := 0; k < 12; k++ {
+			r.Timeout(400 * time.Millisecond)
+			time.Sleep(4 * time.Millisecond)
+		}
+		r.OK("finally")
+	}))
 	svc.Handle("quick", res.Call("burst", func(r res.CallRequest) {
 		// the response follows the pre-response while the client is still busy with its
 		// extension callback (40 ms). The 5 ms gap keeps the case deterministic on a loaded
@@ -497,7 +508,17 @@ func c19Nats(c *core.Ctx, p c19Params) {
 	}
 	for i := 0; i < p.N; i++ {
 		c.Eval(1)
-		switch i % 7 {
+		switch i % 8 {
+		case 7: // twelve pre-responses, then the response
+			var exts []time.Duration
+			r := resprot.SendRequest(cl, "call.svc.patient.do", nil, 300*time.Millisecond, func(d time.Duration) { exts = append(exts, d) })
+			var out string
+			if err := r.ParseResult(&out); err != nil || out != "finally" {
+				c.Violation("C19/e2e-many-pre-responses", fmt.Sprintf("handler sent 12 pre-responses 4 ms apart and then its result: SendRequest returned %s (%d extension callbacks)", jsonStr(r), len(exts)), nil)
+			} else if len(exts) != 12 {
+				c.Violation("C19/e2e-extension-callback", fmt.Sprintf("12 pre-responses notified the extension callbacks %d times", len(exts)), nil)
+			}
+			check("many-pre-responses")
 		case 6: // the response arrives right behind a pre-response, while the extension callback is still running
 			var exts []time.Duration
 			t0 := time.Now()
